@@ -1,15 +1,25 @@
 /-
   C04 certificate: no required (`1`) or list (`*`) field of an AST constructor in any action receives an
-  expression that may be None (checker in Model/ActionNull.lean; its soundness with respect to Python
-  evaluation is NOT proved - it is a syntactic nullability analysis, reported as such).
+  expression that may be None (checker in Model/ActionNull.lean; sound with respect to the evaluation of None /
+  or / and / conditional expressions: Properties/C04.lean, theorem nullable_sound).
   C13 certificate: the inventory of process-level mutable state is the expected one.
 -/
 import XonshVerif.Generated.Actions
+import XonshVerif.Properties.C04
 import XonshVerif.Generated.Inventory
 namespace XVC
 open XV XV.Act
 
 theorem no_nullable_required_field : offenders XV.Gen.actionFields = [] := by decide +kernel
+
+/-- every alternative of the shipped parser passes the check that `required_fields_never_none` is about -/
+theorem shipped_actions_all_ok : XV.Gen.actionFields.all altOK = true := by decide +kernel
+
+/-- **C04, instantiated**: in every action of the shipped parser, a required or list-valued constructor field never
+    receives None, under every valuation that agrees with the alternative's bindings -/
+theorem shipped_required_fields_never_none (a : AltFields) (ha : a ∈ XV.Gen.actionFields) (ρ : String → Val) (hρ : EnvOK a.binds ρ)
+    (f : FieldUse) (hf : f ∈ a.fields) (hk : f.kind = .one ∨ f.kind = .star) (v : Val) (hv : Eval ρ f.value v) : v ≠ .none :=
+  required_fields_never_none a (List.all_eq_true.mp shipped_actions_all_ok a ha) ρ hρ f hf hk v hv
 
 theorem action_fields_nonempty : XV.Gen.actionFields.length ≥ 150 := by decide +kernel
 
